@@ -64,7 +64,7 @@ def puml_tokenizer_phase(prop, pl, tier, v, seed, ev):
     wd = os.path.join(v.dir, "puml"); os.makedirs(wd, exist_ok=True)
     cfgname = "Puml_quick.cfg" if tier == "quick" else "Puml_thorough.cfg"
     shutil.copy(os.path.join(core.VERIF, "spec", "Puml.tla"), wd); shutil.copy(os.path.join(core.VERIF, "puml", cfgname), wd)
-    r = subprocess.run(["timeout", "3000", "java", "-Xmx8g", "-cp", tlc.JAR + ":" + tlc.CM, "tlc2.TLC", "-workers", "1", "-config", cfgname, "Puml.tla"],
+    r = subprocess.run(["timeout", "3000", "java", "-Xmx20g", "-cp", tlc.JAR + ":" + tlc.CM, "tlc2.TLC", "-workers", "1", "-config", cfgname, "Puml.tla"],
                        cwd=wd, capture_output=True, text=True)
     st = tlc.parse_stats(r.stdout)
     cut = r.returncode == 124 and '"L#' in r.stdout       # time limit: the lines enumerated so far are checked, the enumeration is not complete
